@@ -22,7 +22,11 @@ def main():
     ap.add_argument("--hist", type=int, default=32)
     ap.add_argument("--ops", type=int, default=120)
     a = ap.parse_args()
-    env = dict(os.environ, CARGO_NET_OFFLINE="true", CARGO_TARGET_DIR=TARGET, RUSTFLAGS="--cfg %s -C instrument-coverage" % GUARD)
+    # build scripts and proc macros are instrumented too and would drop their profiles into the crates' source
+    # directories (/repo included): send them to a scratch directory instead
+    os.makedirs(os.path.join(TARGET, "build-profiles"), exist_ok=True)
+    env = dict(os.environ, CARGO_NET_OFFLINE="true", CARGO_TARGET_DIR=TARGET, RUSTFLAGS="--cfg %s -C instrument-coverage" % GUARD,
+               LLVM_PROFILE_FILE=os.path.join(TARGET, "build-profiles", "%p-%m.profraw"))
     r = subprocess.run(["cargo", "build", "--offline", "--release", "--bin", "fm-harness"], cwd=os.path.join(ROOT, "harness"), env=env,
                        capture_output=True, text=True)
     if r.returncode != 0:
